@@ -480,7 +480,20 @@ fn cmd_worker(args: &Args) -> i32 {
         if !line.starts_with("id=") { continue }
         let c = Case::from_line(&line, &dir);
         { let mut g = current.lock().unwrap(); *g = (line.clone(), std::time::Instant::now()); }
-        let o = run_rust(&c, &scratch);
+        let o = if c.id.contains("-smallstack-") {
+            // cases that ask "does the work per malformed byte / per element stay bounded?" run on a thread with a SMALL stack
+            // (256 KiB instead of the 8 MiB of a main thread), so that inputs of tens of KiB show what would otherwise need
+            // megabytes; an overflow kills this worker like any other crash
+            let d = dir.clone();
+            std::thread::Builder::new().stack_size(256 * 1024).spawn(move || {
+                let sc = Scratch { dir: d };
+                let o = run_rust(&c, &sc);
+                std::mem::forget(sc);
+                o
+            }).expect("spawn").join().unwrap_or_else(|_| Obs { res: "abort:panic".into(), ..Default::default() })
+        } else {
+            run_rust(&c, &scratch)
+        };
         { let mut g = current.lock().unwrap(); g.0.clear(); }
         let mut h = stdout.lock();
         writeln!(h, "{}", obs_line(&o)).ok();
